@@ -35,7 +35,7 @@ import (
 
 func TestMain(m *testing.M) { ev.Main(m) }
 
-var rec = ev.For("C20", "1-4 gopcua channel pairs (None / Sign / SignAndEncrypt, buffer 8192 or 65535) x 3-30 request/response exchanges each, windowed back to back, 1-3 payload size classes per channel (single and multi-chunk) with per-message contents: ByteStrings, string arrays, nested Variant arrays, optional generated Variant; every delivered request (server kind) and response (client kind) is snapshotted at delivery and compared after all traffic; non-trivial = some observed message carries a ByteString >= 64 B and >= 2 later messages of the same size class followed on its channel; distinct by hash of the case")
+var rec = ev.For("C20", "1-4 gopcua channel pairs (None / Sign / SignAndEncrypt, buffer 8192 or 65535) x 3-30 request/response exchanges each, windowed back to back, 1-3 payload size classes per channel (tiny: whole message below 256 bytes; single and multi-chunk) with per-message contents: ByteStrings, string arrays, nested Variant arrays, optional generated Variant; every delivered request (server kind) and response (client kind) is snapshotted at delivery and compared after all traffic; non-trivial = some observed message carries a ByteString >= 64 B (or is a tiny message) and >= 2 later messages of the same size class followed on its channel; distinct by hash of the case")
 
 type msgT struct {
 	Class int    `json:"class"` // index into the channel's size classes (request)
@@ -110,6 +110,11 @@ func extraVariant(h string) (*ua.Variant, error) {
 // values: the payload of a message of the given size class; the lengths depend
 // only on size (and extra), the contents on seed.
 func values(size, seed int, extra *ua.Variant) []*ua.Variant {
+	if size < 0 {
+		// tiny class: the whole message (all headers included) stays below 256
+		// bytes - one ByteString of -size bytes and nothing else
+		return []*ua.Variant{ua.MustVariant(pattern(-size, seed))}
+	}
 	nested := []*ua.Variant{ua.MustVariant(pattern(80, seed+3)), ua.MustVariant(ints(6, seed)), ua.MustVariant(string(words(1, seed + 4)[0])),
 		ua.MustVariant([]*ua.Variant{ua.MustVariant(pattern(70, seed+5)), ua.MustVariant(words(2, seed+6))})}
 	vs := []*ua.Variant{ua.MustVariant(pattern(size, seed)), ua.MustVariant(words(5, seed)), ua.MustVariant(nested), ua.MustVariant([][]byte{pattern(64, seed+7), pattern(65, seed+8)})}
@@ -137,6 +142,10 @@ func response(handle uint32, size, seed int, extra *ua.Variant) *ua.ReadResponse
 		ServiceDiagnostics: &ua.DiagnosticInfo{EncodingMask: ua.DiagnosticInfoAdditionalInfo, AdditionalInfo: words(1, seed+30)[0]},
 		StringTable:        words(3, seed+31), AdditionalHeader: ua.NewExtensionObject(nil)},
 		Results: []*ua.DataValue{}, DiagnosticInfos: []*ua.DiagnosticInfo{}}
+	if size < 0 {
+		r.ResponseHeader.ServiceDiagnostics = &ua.DiagnosticInfo{}
+		r.ResponseHeader.StringTable = []string{}
+	}
 	for _, v := range values(size, seed+1000, extra) {
 		r.Results = append(r.Results, &ua.DataValue{EncodingMask: ua.DataValueValue | ua.DataValueSourceTimestamp, Value: v, SourceTimestamp: time.Unix(1_600_000_000, 0).UTC()})
 	}
@@ -419,7 +428,7 @@ func validate(c caseT) error {
 			return fmt.Errorf("channel parameters out of range")
 		}
 		for _, s := range ch.Sizes {
-			if s < 0 || s > 300000 {
+			if s < -200 || s > 300000 {
 				return fmt.Errorf("size class %d", s)
 			}
 		}
@@ -462,7 +471,7 @@ func runCase(c caseT) (o outcome, err error) {
 		}
 	}
 	// all traffic on all channels has ended: every delivered message must equal its snapshot
-	multi, single := 0, 0
+	multi, single, tiny := 0, 0, 0
 	for ci, r := range runs {
 		ch := c.Chans[ci]
 		if want := 2 * len(ch.Msgs); len(r.snaps) != want {
@@ -489,8 +498,11 @@ func runCase(c caseT) (o outcome, err error) {
 					n++
 				}
 			}
-			if n >= 2 && hasBigByteString(s.delivered) {
+			if n >= 2 && (hasBigByteString(s.delivered) || len(s.enc) <= 200) {
 				o.nontriv = true
+			}
+			if len(s.enc) <= 200 {
+				tiny++
 			}
 			if len(s.enc)+64 > int(ch.Buf) {
 				multi++
@@ -503,6 +515,7 @@ func runCase(c caseT) (o outcome, err error) {
 	for _, ch := range c.Chans {
 		o.classes = append(o.classes, "channel:"+describe(ch), fmt.Sprintf("window:%s", bucket(ch.Window)), fmt.Sprintf("exchanges:%s", bucket(len(ch.Msgs))))
 	}
+	rec.ClassN("delivered:whole-message-below-256-bytes", int64(tiny))
 	rec.ClassN("delivered:multi-chunk", int64(multi))
 	rec.ClassN("delivered:single-chunk", int64(single))
 	return o, nil
@@ -577,7 +590,7 @@ func genCase(t *rapid.T) caseT {
 		ch.Buf = rapid.SampledFrom([]uint32{8192, 8192, 65535}).Draw(t, "buf")
 		ns := rapid.SampledFrom([]int{1, 1, 2, 3}).Draw(t, "nsizes")
 		for k := 0; k < ns; k++ {
-			ch.Sizes = append(ch.Sizes, rapid.SampledFrom([]int{64, 100, 1000, 5000, 7000, 9000, 20000, ev.Pick(40000, 120000)}).Draw(t, "size"))
+			ch.Sizes = append(ch.Sizes, rapid.SampledFrom([]int{-1, -16, -100, -150, 64, 100, 1000, 5000, 7000, 9000, 20000, ev.Pick(40000, 120000)}).Draw(t, "size"))
 		}
 		ch.Window = rapid.SampledFrom([]int{1, 2, 4, 8}).Draw(t, "window")
 		n := rapid.IntRange(3, ev.Pick(12, 30)).Draw(t, "nmsgs")
